@@ -58,7 +58,16 @@ def run(chk):
             hit = sorted(users & reach)
             key = "mutable static '%s' (%s) is %s" % (s["q"], s["t"][:40], "thread_local" if s["tls"] else "not reachable from evaluation")
             if s["tls"]:
-                chk.proved("R1", key, where=s["loc"], detail="per-thread object; referenced by %d functions" % len(users), variant=vn)
+                # per-thread state is race-free, but it still carries history from call to call: only the FFT processors
+                # (whose scratch is fully rewritten by every transform, R5) may be reachable from the evaluation API
+                isproc = bool(re.search(r"[Pp]rocessor", s["t"]))
+                if isproc or not (users & reach):
+                    chk.proved("R1", key, where=s["loc"], detail="per-thread object; referenced by %d functions%s" % (
+                        len(users), " (FFT processor: scratch rewritten per transform, see R5)" if isproc else ""), variant=vn)
+                else:
+                    chk.refuted("R1", "mutable thread_local '%s' carries state between evaluation calls" % s["q"], where=s["loc"],
+                                detail="written/read by %s, reachable from the evaluation API: the result of a call can depend on what ran before "
+                                       "on the same thread" % sorted(v.qname(u) for u in users & reach)[:3], variant=vn)
                 continue
             # a mutex is the synchronisation object itself
             if re.search(r"\bstd::mutex\b|\bmutex\b", s["t"]):
